@@ -314,6 +314,127 @@ def find_all(n, pred, out):
     return out
 
 
+
+# ------------------------------------------------------------------------------ std::string expressions (wc_match)
+
+class StrExpr:
+    """expressions of `SolverOption::wc_match` over `key`, the loop variable's `.first`/`.second`, `wc_head()`/`wc_tail()`,
+    `size()`, `rfind`, `substr`, size_t `-`, `==`, `>`, `&&`  ->  Lean terms over MpVerif.C11.StdStr"""
+
+    def __init__(self, key, loopvar):
+        self.key, self.loopvar = key, loopvar
+
+    def tr(self, n):
+        n = strip(n)
+        k = n.get('kind')
+        if k == 'ImplicitCastExpr' and n.get('castKind') in ('IntegralCast',):
+            return self.tr(kids(n)[0])
+        if k == 'DeclRefExpr':
+            if n['referencedDecl']['name'] == self.key:
+                return 'key', 'str'
+            raise TranslateError('wc_match: reference to %s' % n['referencedDecl']['name'])
+        if k == 'MemberExpr':
+            base = strip(kids(n)[0])
+            if base.get('kind') == 'DeclRefExpr' and base['referencedDecl']['name'] == self.loopvar and n.get('name') in ('first', 'second'):
+                return ('head' if n['name'] == 'first' else 'tail'), 'str'
+            raise TranslateError('wc_match: member %s' % n.get('name'))
+        if k == 'IntegerLiteral':
+            return '(%d : Nat)' % int(n['value']), 'nat'
+        if k == 'CXXDefaultArgExpr':
+            return 'npos', 'nat'        # the only defaulted argument used here: rfind's pos = npos
+        if k == 'CXXMemberCallExpr':
+            callee = strip(kids(n)[0])
+            if callee.get('kind') != 'MemberExpr':
+                raise TranslateError('wc_match: call through %s' % callee.get('kind'))
+            nm = callee.get('name')
+            obj = strip(kids(callee)[0])
+            args = kids(n)[1:]
+            if obj.get('kind') == 'CXXThisExpr' or (obj.get('kind') == 'ImplicitCastExpr' and strip(kids(obj)[0]).get('kind') == 'CXXThisExpr'):
+                if nm == 'wc_head' and not args:
+                    return 'head0', 'str'
+                if nm == 'wc_tail' and not args:
+                    return 'tail0', 'str'
+                raise TranslateError('wc_match: call of this->%s' % nm)
+            o, ot = self.tr(obj)
+            if ot != 'str':
+                raise TranslateError('wc_match: method %s on a non-string' % nm)
+            if nm in ('size', 'length') and not args:
+                return '(%s).length' % o, 'nat'
+            if nm == 'rfind' and len(args) == 2:
+                a, at = self.tr(args[0]); b, bt = self.tr(args[1])
+                if at == 'str' and bt == 'nat':
+                    return '(rfind %s %s %s)' % (o, a, b), 'nat'
+            if nm == 'substr' and len(args) == 2:
+                a, at = self.tr(args[0]); b, bt = self.tr(args[1])
+                if at == 'nat' and bt == 'nat':
+                    return '(substr %s %s %s)' % (o, a, b), 'str'
+            raise TranslateError('wc_match: std::string::%s with %d arguments' % (nm, len(args)))
+        if k == 'BinaryOperator':
+            op = n.get('opcode')
+            a, at = self.tr(kids(n)[0]); b, bt = self.tr(kids(n)[1])
+            if op == '&&' and at == bt == 'bool':
+                return '(%s && %s)' % (a, b), 'bool'
+            if at == bt == 'nat':
+                if op == '==':
+                    return '(%s == %s)' % (a, b), 'bool'
+                if op == '>':
+                    return '(decide (%s > %s))' % (a, b), 'bool'
+                if op == '-':
+                    return '(usub %s %s)' % (a, b), 'nat'
+            raise TranslateError('wc_match: operator %s on %s,%s' % (op, at, bt))
+        raise TranslateError('wc_match: node %s' % k)
+
+
+def translate_wc_match(d):
+    """`for (const auto& wcht : wc_headtails_) if (COND) { wc_key_last_ = key; wc_body_last_ = BODY; return true; } return false;`"""
+    key = [c for c in kids(d) if c.get('kind') == 'ParmVarDecl'][0]['name']
+    body = kids(body_of(d))
+    if len(body) != 2 or body[0].get('kind') != 'CXXForRangeStmt' or body[1].get('kind') != 'ReturnStmt':
+        raise TranslateError('wc_match: expected `for (... : wc_headtails_) ...; return false;`')
+    r = strip(kids(body[1])[0])
+    if r.get('kind') != 'CXXBoolLiteralExpr' or r.get('value'):
+        raise TranslateError('wc_match: final return is not `false`')
+    fr = body[0]
+    loopvars = [v for v in find_all(fr, lambda n: n.get('kind') == 'VarDecl' and not str(n.get('name', '')).startswith('__'), [])]
+    rng = find_all(fr, lambda n: n.get('kind') == 'MemberExpr' and n.get('name') == 'wc_headtails_', [])
+    if len(loopvars) != 1 or not rng:
+        raise TranslateError('wc_match: loop is not over wc_headtails_ with one loop variable')
+    lv = loopvars[0]['name']
+    fb = kids(fr)[-1]
+    stmts = kids(fb) if fb.get('kind') == 'CompoundStmt' else [fb]
+    if len(stmts) != 1 or stmts[0].get('kind') != 'IfStmt' or len(kids(stmts[0])) != 2:
+        raise TranslateError('wc_match: loop body is not a single `if` without else')
+    cond, then = kids(stmts[0])
+    ts = kids(then)
+    if len(ts) != 3 or strip(ts[2]).get('kind') != 'ReturnStmt':
+        raise TranslateError('wc_match: expected three statements in the `if`')
+    rt = strip(kids(strip(ts[2]))[0])
+    if rt.get('kind') != 'CXXBoolLiteralExpr' or not rt.get('value'):
+        raise TranslateError('wc_match: the `if` does not `return true`')
+
+    def assign(st, member):
+        st = strip(st)
+        if st.get('kind') != 'CXXOperatorCallExpr':
+            raise TranslateError('wc_match: expected an assignment')
+        parts = kids(st)
+        lhs = strip(parts[1])
+        if lhs.get('kind') != 'MemberExpr' or lhs.get('name') != member:
+            raise TranslateError('wc_match: expected assignment to %s' % member)
+        return parts[2]
+    sx = StrExpr(key, lv)
+    k1, t1 = sx.tr(assign(ts[0], 'wc_key_last_'))
+    if k1 != 'key':
+        raise TranslateError('wc_match: wc_key_last_ is not assigned the key')
+    c, ct = sx.tr(cond)
+    b, bt = sx.tr(assign(ts[1], 'wc_body_last_'))
+    if ct != 'bool' or bt != 'str':
+        raise TranslateError('wc_match: condition/body types')
+    return ('/-- `wc_match`: the test applied to each (head, tail) pattern; head0/tail0 = `wc_head()`/`wc_tail()` (the primary pattern) -/\n'
+            'def wc_match_cond (key head tail head0 tail0 : List UInt8) : Bool :=\n  %s\n\n'
+            '/-- `wc_match`: what is stored in `wc_body_last_` when the test succeeds -/\n'
+            'def wc_match_body (key head tail head0 tail0 : List UInt8) : List UInt8 :=\n  %s\n' % (c, b))
+
+
 def lean_str(s):
     return '"' + s.replace('\\', '\\\\').replace('"', '\\"') + '"'
 
@@ -345,8 +466,9 @@ def main(repo, out, work):
          '   `char` values read: c0 = `*s`, c1 = `s[1]`, other parameters are `char` locals.  Skeletons list the statements of a',
          '   function in order (structure from the AST, text normalised from the source). -/',
          'import MpVerif.C11.CLib',
+         'import MpVerif.C11.StdStr',
          'namespace MpVerif.Gen.C11Tok',
-         'open MpVerif.CSem MpVerif.C11.CLib',
+         'open MpVerif.CSem MpVerif.C11.CLib MpVerif.C11.StdStr',
          '']
     n_conds = 0
     skels = []
@@ -530,6 +652,8 @@ def main(repo, out, work):
         if name == 'AddOption':
             ds = [x for x in ds if 'OptionPtr' in x['type']['qualType'] or 'unique_ptr' in x['type']['qualType']]
         d = one(ds, filt)
+        if name == 'wc_match':
+            o.append(translate_wc_match(d))
         sk = sk_cc.stmts(body_of(d))
         if name == 'FindOption':
             # the lambda of the synonym comparison is an expression inside an `if`: its text is part of that line
